@@ -100,7 +100,17 @@ func (v wrapperValue) IndexValue(Value) Value    { return nilValue }
 func (v wrapperValue) Contains(Value) bool       { return false }
 func (v wrapperValue) Interface() any            { return v.value }
 func (v wrapperValue) PropertyValue(Value) Value { return nilValue }
-func (v wrapperValue) Test() bool                { return v.value != nil && v.value != false }
+func (v wrapperValue) Test() bool                { return Truthy(v.value) }
+
+// Truthy reports whether a value counts as true: every value except nil and false
+// (false of any boolean type: a value of 'type Flag bool' is a boolean too).
+func Truthy(value any) bool {
+	if value == nil || value == false {
+		return false
+	}
+	rv := reflect.ValueOf(value)
+	return rv.Kind() != reflect.Bool || rv.Bool()
+}
 
 func (v wrapperValue) Int() int {
 	if n, ok := intOf(v.value); ok {
